@@ -55,7 +55,7 @@ ASSUMPTIONS = [
 RULE = ("toy linear model with L1 sum loss (integer-valued gradients), k in 1..4, 1..12 iterations, batch sizes 1..4, SGD with "
         "momentum 0 or 1/2, WarmupMultiStepLR with dyadic parameters; non-trivial = k >= 2 and at least one completed window; "
         "distinct = distinct protocol line / oracle configuration")
-PENDING_FINDINGS = ["resume-mid-window"]
+PENDING_FINDINGS = ["additional-models-not-divided"]     # `resume-mid-window` is listed as known
 
 logging.disable(logging.CRITICAL)
 
@@ -73,6 +73,17 @@ class _ToyModel(torch.nn.Module):
 
     def forward(self, x):
         return x @ self.w
+
+
+class _ToyAux(torch.nn.Module):
+    """an additional model as in `self.models` (e.g. sensitivity_model): its own parameters, same optimiser"""
+
+    def __init__(self, d):
+        super().__init__()
+        self.v = torch.nn.Parameter(torch.zeros(d, dtype=torch.float64))
+
+    def forward(self, x):
+        return x @ self.v
 
 
 class _ToyDS(torch.utils.data.Dataset):
@@ -129,11 +140,22 @@ def _engine_class():
                 return (source - target).abs().sum()
             return {"toy_loss": toy_loss}
 
+        oom_at = ()
+        oom_where = "pre"
+
         def forward_function(self, data):
-            return self.model(data["x"]).reshape(-1, 1, 1), None
+            out = self.model(data["x"])
+            if "aux_model" in self.models:
+                out = out + self.models["aux_model"](data["x"])
+            return out.reshape(-1, 1, 1), None
 
         def _do_iteration(self, data, loss_fns=None, regularizer_fns=None):
             it = self.it_counter
+            if it in self.oom_at:
+                self.it_counter += 1
+                if self.oom_where == "post":      # the allocation fails after part of the backward pass
+                    super()._do_iteration(data, loss_fns, regularizer_fns)
+                raise RuntimeError("CUDA out of memory. Tried to allocate 20.00 MiB (simulated by the harness)")
             if self.vanish_at == it and it > self.started_at:   # "vanishes after iteration it-1" of *this* process
                 raise Vanish()
             if self.kill_at == it and self.kill_where == "pre":
@@ -238,25 +260,33 @@ def crash_in_save(label, point):
         CK.os, CK.torch, CK.Checkpointer.save = real_os, real_torch, real_save
 
 
-def run_process(expdir, c, *, total=None, kill_at=None, kill_where="pre", vanish_at=None, crash=None, resume=True):
+def run_process(expdir, c, *, total=None, kill_at=None, kill_where="pre", vanish_at=None, crash=None, resume=True,
+                oom_at=(), oom_where="pre"):
     """One training process on the REAL engine.  `c`: dict(d, bs, k, T, ck, X, y, w0, opt, base_lr, sched, clip).
     Returns dict(start, records=[(w, lr)] per completed iteration, code, last_epoch, w, latest)."""
     total = c["T"] if total is None else total
     model = _ToyModel(c["w0"])
+    aux = _ToyAux(c["d"]) if c.get("aux") else None
+    groups = [{"params": model.parameters()}] + ([{"params": aux.parameters()}] if aux is not None else [])
     opt = c.get("opt", ("sgd", Fr(0)))
     if opt[0] == "sgd":
-        o = torch.optim.SGD(model.parameters(), lr=float(c["base_lr"]), momentum=float(opt[1]))
+        o = torch.optim.SGD(groups, lr=float(c["base_lr"]), momentum=float(opt[1]))
     else:
-        o = torch.optim.Adam(model.parameters(), lr=float(c["base_lr"]))
+        o = torch.optim.Adam(groups, lr=float(c["base_lr"]))
     s = make_scheduler(o, c["sched"])
-    eng = _engine_class()(_make_cfg(total, c["k"], c["ck"], c["bs"], c.get("clip", 0)), model, "cpu")
+    models = {"aux_model": aux} if aux is not None else {}
+    eng = _engine_class()(_make_cfg(total, c["k"], c["ck"], c["bs"], c.get("clip", 0)), model, "cpu", **models)
     eng.kill_at, eng.kill_where, eng.vanish_at = kill_at, kill_where, vanish_at
+    eng.oom_at, eng.oom_where = tuple(oom_at), oom_where
+
+    def params():
+        return model.w.detach().clone().tolist() + (aux.v.detach().clone().tolist() if aux is not None else [])
     records = []
 
     class Recording(type(s)):   # a subclass, not an instance attribute: the scheduler's state_dict() is its __dict__
         def step(self, *a, **kw):
             r = super().step(*a, **kw)
-            records.append((model.w.detach().clone().tolist(), o.param_groups[0]["lr"]))
+            records.append((params(), o.param_groups[0]["lr"]))
             return r
 
     s.__class__ = Recording
@@ -280,7 +310,7 @@ def run_process(expdir, c, *, total=None, kill_at=None, kill_where="pre", vanish
     lm = pathlib.Path(expdir) / "last_model.txt"
     latest = int(lm.read_text()) if lm.exists() else -1
     return {"start": eng.started_at, "records": records, "code": code, "last_epoch": s.last_epoch,
-            "w": model.w.detach().clone().tolist(), "latest": latest, "opt_state": o.state_dict()["state"]}
+            "w": params(), "latest": latest, "opt_state": o.state_dict()["state"]}
 
 
 @contextlib.contextmanager
@@ -309,6 +339,10 @@ def lr_closed_form(sched, e) -> Fr:
 
 
 def toy_grad(w, rows):
+    d = len(rows[0][0]) if rows else len(w)
+    if len(w) == 2 * d:        # additional model: prediction x·w + x·v, the same gradient for both groups
+        g = toy_grad([a + b for a, b in zip(w[:d], w[d:])], rows)
+        return g + g
     g = [Fr(0)] * len(w)
     for x, y in rows:
         r = sum(Fr(a) * b for a, b in zip(x, w)) - y
@@ -327,7 +361,7 @@ def reference_run(c, total=None):
     SGD(momentum) step on the mean of the k most recent batch gradients, lr schedule advancing once per iteration."""
     total = c["T"] if total is None else total
     k, mu = c["k"], Fr(c["opt"][1])
-    w = [Fr(v) for v in c["w0"]]
+    w = [Fr(v) for v in c["w0"]] + ([Fr(0)] * c["d"] if c.get("aux") else [])
     buf = None
     window = []
     out = []
@@ -365,6 +399,8 @@ def sched_groups(s):
 def toy_groups(c, extra_hdr=()):
     sg, ms = sched_groups(c["sched"])
     hdr = [c["d"], c["bs"], c["k"], c["T"]] + list(extra_hdr)
+    if c.get("aux"):
+        hdr = (hdr + [0, 0])[:5] + [1]
     return [hdr, fr_pairs([c["opt"][1] if len(c["opt"]) > 1 else 0]), sg, ms, [v for r in c["X"] for v in r], list(c["y"]), list(c["w0"])]
 
 
@@ -426,6 +462,35 @@ def correspondence(ctx: Ctx):
         yield {"line": proto("loop", toy_groups(c, [0])), "impl": impl,
                "nontrivial": malformed is None and kk >= 2 and c["T"] >= kk,
                "bucket": f"malformed/{malformed}" if malformed else f"k{kk}/bs{c['bs']}/mu{c['opt'][1]}"}
+    # an additional model in `self.models`, trained by the same optimiser
+    for i in range(ctx.budget(10, 120)):
+        c = gen_cfg(rng, k=[1, 2, 3, 4, 2][i % 5])
+        c["aux"] = True
+        c["T"] = max(c["T"], c["k"] + 1)
+
+        def impl_aux(c=c):
+            r = real_uninterrupted(c)
+            cache.append((c, r))
+            return fmt_records(r["records"])
+
+        yield {"line": proto("loop", toy_groups(c, [0])), "impl": impl_aux, "nontrivial": c["k"] >= 2,
+               "bucket": f"aux-model/k{c['k']}"}
+    # OOM recovery: iterations whose _do_iteration raises "out of memory" (at most two in a row)
+    for i in range(ctx.budget(12, 150)):
+        c = gen_cfg(rng, k=[1, 2, 3, 4][i % 4], T=rng.randint(4, 12))
+        oom = sorted(rng.sample(range(c["T"]), rng.randint(1, 3)))
+        oom = [j for n, j in enumerate(oom) if not (n >= 2 and oom[n - 1] == j - 1 and oom[n - 2] == j - 2)]
+        where = rng.choice(["pre", "post"])
+
+        def impl_oom(c=c, oom=oom, where=where):
+            with scratch_dir() as d:
+                r = run_process(d, c, resume=False, oom_at=oom, oom_where=where)
+            ctx.__dict__.setdefault("c16_oom", []).append((c, oom, r))
+            return fmt_records(r["records"])
+
+        mid = any((j + 1) % c["k"] != 0 for j in oom) and c["k"] >= 2
+        yield {"line": proto("loop", toy_groups(c, [0]) + [oom]), "impl": impl_oom, "nontrivial": True,
+               "bucket": f"oom-skip/k{c['k']}/" + ("mid-window" if mid else "boundary") + "/" + where}
 
 
 # ==================================================================================================
@@ -456,6 +521,164 @@ def _float_reference(c, opt_kind, clip):
     return out
 
 
+
+# ==================================================================================================
+# the accumulation property on REAL engines (tiny real models, real _do_iteration / losses / training_loop)
+REAL_ENGINES = ("unet", "rim", "varnet")
+_SEQ = {}
+
+
+def _seq_engine(base):
+    """subclass of a real engine class whose only change is the deterministic batch order (batch i at iteration i)"""
+    if base not in _SEQ:
+        class Seq(base):
+            started_at = 0
+
+            def training_loop(self, training_datasets, start_iter, *a, **kw):
+                self.started_at = start_iter
+                return super().training_loop(training_datasets, start_iter, *a, **kw)
+
+            def build_batch_sampler(self, dataset, batch_size, sampler_type, **kw):
+                if sampler_type == "random":
+                    return _SeqBatches(sum(len(d) for d in dataset), batch_size, self.started_at)
+                return super().build_batch_sampler(dataset, batch_size, sampler_type, **kw)
+
+        Seq.__name__ = "Seq" + base.__name__
+        _SEQ[base] = Seq
+    return _SEQ[base]
+
+
+def build_real(kind, seed, total, k, bs, clip=0.0):
+    import functools
+
+    from direct.config.defaults import DefaultConfig, FunctionConfig, LossConfig, TrainingConfig, ValidationConfig
+    from direct.data.transforms import fft2, ifft2
+
+    torch.manual_seed(seed)
+    fwd, bwd = functools.partial(fft2, centered=True), functools.partial(ifft2, centered=True)
+    if kind == "unet":
+        from direct.nn.unet.config import Unet2dConfig
+        from direct.nn.unet.unet_2d import Unet2d
+        from direct.nn.unet.unet_engine import Unet2dEngine as E
+        mc = Unet2dConfig(num_filters=4, num_pool_layers=2, image_initialization="sense")
+        model = Unet2d(fwd, bwd, num_filters=4, num_pool_layers=2, dropout_probability=0.0, image_initialization="sense")
+    elif kind == "rim":
+        from direct.nn.rim.config import RIMConfig
+        from direct.nn.rim.rim import RIM
+        from direct.nn.rim.rim_engine import RIMEngine as E
+        mc = RIMConfig()
+        model = RIM(fwd, bwd, hidden_channels=4, length=2, depth=2, no_parameter_sharing=False)
+    else:
+        from direct.nn.varnet.config import EndToEndVarNetConfig
+        from direct.nn.varnet.varnet import EndToEndVarNet
+        from direct.nn.varnet.varnet_engine import EndToEndVarNetEngine as E
+        mc = EndToEndVarNetConfig()
+        model = EndToEndVarNet(fwd, bwd, num_layers=2, regularizer_num_filters=4, regularizer_num_pull_layers=2)
+    tr = TrainingConfig(loss=LossConfig(losses=[FunctionConfig("l1_loss"), FunctionConfig("l2_loss")]))
+    tr.num_iterations, tr.gradient_steps, tr.batch_size, tr.gradient_clipping = total, k, bs, float(clip)
+    tr.validation_steps = 10 ** 6
+    tr.checkpointer.checkpoint_steps = 10 ** 6
+    cfg = DefaultConfig(training=tr, validation=ValidationConfig(crop=None), model=mc)
+    return E, cfg, model, fft2, ifft2
+
+
+class _MRIDS(torch.utils.data.Dataset):
+    def __init__(self, n, seed, coils=2, h=8, w=8):
+        g = torch.Generator().manual_seed(seed)
+        self.items = []
+        for i in range(n):
+            mask = (torch.rand(1, 1, w, 1, generator=g) < 0.6).float().expand(1, h, w, 1).clone()
+            mask[:, :, w // 2] = 1.0
+            ksp = torch.randn(coils, h, w, 2, generator=g)
+            self.items.append({"masked_kspace": ksp * mask, "kspace": ksp, "sensitivity_map": torch.randn(coils, h, w, 2, generator=g),
+                               "sampling_mask": mask, "target": torch.randn(h, w, generator=g).abs(),
+                               "scaling_factor": torch.tensor(1.0), "filename": "f", "slice_no": i})
+        self.ndim = 2
+        self.volume_indices = {}
+
+    def __len__(self):
+        return len(self.items)
+
+    def __getitem__(self, i):
+        return dict(self.items[i])
+
+
+def _flat(model):
+    return torch.cat([p.detach().reshape(-1) for p in model.parameters()]).clone()
+
+
+def real_engine_check(kind, k, total, bs, opt_kind, seed):
+    """REAL engine.train with gradient_steps = k against: per window, the engine's own `_do_iteration` on each batch
+    separately (fresh gradients), their mean, one optimiser step.  Returns (max abs deviation, first bad iteration | None)."""
+    sched = {"kind": "multistep", "milestones": [3], "gamma": Fr(1, 2), "wf": Fr(1, 2), "warmup_iters": 2,
+             "method": "linear", "base": Fr(1, 64)}
+    ds = _MRIDS(7, seed)
+
+    def mkopt(model):
+        if opt_kind == "adam":
+            return torch.optim.Adam(model.parameters(), lr=float(sched["base"]))
+        return torch.optim.SGD(model.parameters(), lr=float(sched["base"]), momentum=0.5)
+
+    # the real run
+    E, cfg, model, f, b = build_real(kind, seed, total, k, bs)
+    o = mkopt(model)
+    s = make_scheduler(o, sched)
+    records = []
+
+    class Recording(type(s)):
+        def step(self, *a, **kw):
+            r = super().step(*a, **kw)
+            records.append((_flat(model), o.param_groups[0]["lr"]))
+            return r
+
+    s.__class__ = Recording
+    eng = _seq_engine(E)(cfg, model, "cpu", f, b)
+    initial = _flat(model)
+    with scratch_dir() as d:
+        try:
+            eng.train(o, s, [ds], pathlib.Path(d), resume=False, num_workers=0)
+        finally:
+            signal.signal(signal.SIGINT, signal.default_int_handler)
+    if total >= k and float((records[-1][0] - initial).abs().max()) == 0.0:
+        raise RuntimeError(f"{kind}: the real run did not move the parameters — the check would be vacuous")
+    # the reference
+    E, cfg, rmodel, f, b = build_real(kind, seed, total, k, bs)
+    ro = mkopt(rmodel)
+    reng = E(cfg, rmodel, "cpu", f, b)
+    signal.signal(signal.SIGINT, signal.default_int_handler)
+    reng.ndim = 2
+    rmodel.train()
+    loss_fns = reng.build_loss()
+    loader = iter(torch.utils.data.DataLoader(ds, batch_sampler=_SeqBatches(len(ds), bs, 0), num_workers=0))
+    worst, bad, window = 0.0, None, []
+    for it in range(total):
+        rmodel.zero_grad(set_to_none=True)
+        reng._do_iteration(next(loader), loss_fns, regularizer_fns={})
+        window.append([None if p.grad is None else p.grad.detach().clone() for p in rmodel.parameters()])
+        if (it + 1) % k == 0:
+            for j, p in enumerate(rmodel.parameters()):
+                gs = [w[j] for w in window if w[j] is not None]
+                if gs:
+                    acc = gs[0].clone()
+                    for g in gs[1:]:
+                        acc = acc + g
+                    p.grad = acc / k if k > 1 else acc
+                else:
+                    p.grad = None
+            window = []
+            for grp in ro.param_groups:
+                grp["lr"] = float(lr_closed_form(sched, it))
+            ro.step()
+        if it >= len(records):
+            return float("inf"), it
+        dev = float((records[it][0] - _flat(rmodel)).abs().max())
+        worst = max(worst, dev)
+        scale = float(_flat(rmodel).abs().max())
+        if bad is None and (dev > 1e-5 * max(scale, 1.0) or abs(records[it][1] - float(lr_closed_form(sched, it + 1))) > 1e-12):
+            bad = it
+    return worst, bad
+
+
 def _cfg_replay(c, **kw):
     r = {"op": "train", "cfg": {**{k: v for k, v in c.items() if k not in ("opt", "sched", "base_lr")},
                                 "opt": [c["opt"][0], str(c["opt"][1])] if len(c["opt"]) > 1 else [c["opt"][0]],
@@ -484,6 +707,9 @@ def check_exact(c, r):
                     f"{it + 1} is {float(rlr)}", {"iteration": it})
         if [Fr(v) for v in w] != rw:
             key = "k1-step-not-own-gradient" if c["k"] == 1 else "step-not-mean-of-window"
+            d = c["d"]
+            if c.get("aux") and [Fr(v) for v in w[:d]] == rw[:d]:
+                key = "additional-models-not-divided"
             return (key, f"parameters after iteration {it} are {w}, the step on the mean gradient of the k={c['k']} most "
                     f"recent batches gives {[float(v) for v in rw]}", {"iteration": it, "expected": [str(v) for v in rw],
                                                                        "observed": w})
@@ -536,6 +762,19 @@ def oracle(ctx: Ctx, deep: bool = False):
                                 f"{opt_kind} clip={clip}: parameters after iteration {it} are {w}, reference {rw}",
                                 _cfg_replay(c2, check="float", opt_kind=opt_kind, iteration=it))
                 break
+    # (2b) the same property through REAL engines (tiny Unet2d / RIM / EndToEndVarNet, real losses, real _do_iteration)
+    combos = [(e, k) for e in REAL_ENGINES for k in (2, 3)] if not (ctx.thorough or deep) else \
+        [(e, k) for e in REAL_ENGINES for k in (1, 2, 3, 4) for _ in range(3)]
+    for i, (kind, k) in enumerate(combos):
+        total, bs = rng.choice([5, 6, 7]) if k < 4 else 9, rng.randint(1, 2)
+        opt_kind, seed = ["sgd", "adam"][i % 2], rng.randrange(10 ** 6)
+        worst, bad = real_engine_check(kind, k, total, bs, opt_kind, seed)
+        ctx.count(("real-engine", kind, k, total, bs, opt_kind, seed), k >= 2, sample={"engine": kind, "k": k, "T": total,
+                  "bs": bs, "opt": opt_kind, "max_abs_deviation": worst}, bucket=f"oracle/real-engine/{kind}/k{k}/{opt_kind}")
+        if bad is not None:
+            yield Violation(f"step-not-mean-of-window-{kind}", f"{kind} engine, k={k}, {opt_kind}: parameters after iteration {bad} "
+                            f"deviate from the step on the window's mean gradient by {worst:.3g}",
+                            {"op": "real-engine", "engine": kind, "k": k, "T": total, "bs": bs, "opt": opt_kind, "seed": seed})
     # (3) resume: at a window boundary it must reproduce the uninterrupted run; inside a window it does not
     for i in range(ctx.budget(6, 40)):
         k = [2, 3, 2, 4][i % 4]
@@ -560,6 +799,8 @@ def oracle(ctx: Ctx, deep: bool = False):
 
 
 def replay(rep: dict) -> bool:
+    if rep.get("op") == "real-engine":
+        return real_engine_check(rep["engine"], rep["k"], rep["T"], rep["bs"], rep["opt"], rep["seed"])[1] is not None
     c = _cfg_from_replay(rep)
     if rep.get("check") == "resume":
         full, a, b = check_resume(c, rep["stop_after"])
